@@ -114,7 +114,7 @@ impl Method for Vidya {
 		// incremental updates have left in them. Otherwise the test below would be decided by that residue
 		// and the output after a flat stretch would depend on what happened long before it.
 		self.flat = if change == 0. {
-			self.flat.saturating_add(1)
+			self.flat.saturating_add(1).min(self.window.len())
 		} else {
 			0
 		};
